@@ -8,6 +8,7 @@ package router
 import (
 	"context"
 	"fmt"
+	"io"
 	"net"
 	"os"
 	"path/filepath"
@@ -73,9 +74,12 @@ func TestVerifC18Startup(t *testing.T) {
 	rep := report.New("C18 start-up failure and router close")
 	defer rep.Write()
 	healthy := []string{"udp", "tcp", "gnet", "http", "fasthttp", "tls", "https", "quic"}
-	failing := []string{"port-in-use", "missing-cert", "missing-cert:https", "missing-cert:quic", "unknown-protocol", "bad-listen-address"}
+	failing := []string{"port-in-use", "port-in-use:gnet", "port-in-use:http", "port-in-use:fasthttp", "port-in-use:tls", "port-in-use:https", "port-in-use:udp", "port-in-use:quic",
+		"missing-cert", "missing-cert:https", "missing-cert:quic", "unknown-protocol", "bad-listen-address",
+		// not a listener at all: the configuration fails before / after the listeners, with a metrics endpoint configured
+		"upstream-with-unknown-protocol", "missing-domain-set-file", "rule-names-unknown-upstream"}
 	rep.Rule = fmt.Sprintf("real run() on loopback: 3-server configurations with one failing entry %v (the entries without a loadable certificate must not leave their own address bound either) at index 0,1,2 and the other two entries drawn (rotating) from the healthy kinds %v; plus every healthy kind alone, closed twice; "+
-		"oracle: run() returns an error without panicking, no listening socket of the healthy entries is left in the process afterwards (own-fd x /proc/net LISTEN/UDP check); a healthy router's close() is idempotent and frees its ports, also with a request in flight against a silent upstream (udp, tcp, gnet, http, fasthttp), where it returns without waiting for the request's deadline (fastest of 3 attempts under 3 s); distinct = distinct configurations", failing, healthy)
+		"plus configurations whose failure is not a listener (upstream with an unknown protocol, missing domain-set file, rule naming an unknown upstream) with a metrics endpoint configured; oracle: run() returns an error without panicking, no listening socket of the healthy entries (nor the metrics endpoint) is left in the process afterwards (own-fd x /proc/net LISTEN/UDP check); a healthy router's close() is idempotent and frees its ports, also with a request in flight against a silent upstream (udp, tcp, gnet, http, fasthttp), where it returns without waiting for the request's deadline (fastest of 3 attempts under 3 s); distinct = distinct configurations", failing, healthy)
 	if sh, _ := report.Shard(); sh != 0 {
 		rep.Eval("idle-shard")
 		rep.Eval("idle-shard2")
@@ -108,13 +112,44 @@ func TestVerifC18Startup(t *testing.T) {
 				port int
 			}
 			var bounds []bound
-			var blocker net.Listener
+			var blocker io.Closer
+			if fk == "upstream-with-unknown-protocol" || fk == "missing-domain-set-file" || fk == "rule-names-unknown-upstream" {
+				mport := c18FreePort()
+				cfg.Metrics.Addr = fmt.Sprintf("127.0.0.1:%d", mport)
+				bounds = append(bounds, bound{"metrics", mport})
+				cfg.Upstreams = []UpstreamConfig{{Tag: "u", Addr: "udp://127.0.0.1:53"}}
+				switch fk {
+				case "upstream-with-unknown-protocol":
+					cfg.Upstreams = append(cfg.Upstreams, UpstreamConfig{Tag: "bad", Addr: "gopher://127.0.0.1"})
+				case "missing-domain-set-file":
+					cfg.DomainSets = []DomainSetConfig{{Tag: "d", Files: []string{filepath.Join(dir, "no-such-list.txt")}}}
+				case "rule-names-unknown-upstream":
+					cfg.Rules = []RuleConfig{{Forward: "nobody"}}
+				}
+			}
 			for i := 0; i < 3; i++ {
 				if i == idx {
 					switch fk {
-					case "port-in-use":
-						blocker, _ = net.Listen("tcp", "127.0.0.1:0")
-						cfg.Servers = append(cfg.Servers, mkServer("tcp", blocker.Addr().(*net.TCPAddr).Port))
+					case "upstream-with-unknown-protocol", "missing-domain-set-file", "rule-names-unknown-upstream":
+						// all three server entries are healthy here
+						kind := healthy[(n+i*3+fi)%len(healthy)]
+						port := c18FreePort()
+						bounds = append(bounds, bound{kind, port})
+						cfg.Servers = append(cfg.Servers, mkServer(kind, port))
+					case "port-in-use", "port-in-use:gnet", "port-in-use:http", "port-in-use:fasthttp", "port-in-use:tls", "port-in-use:https", "port-in-use:udp", "port-in-use:quic":
+						proto := "tcp"
+						if i := strings.IndexByte(fk, ':'); i > 0 {
+							proto = fk[i+1:]
+						}
+						port := 0
+						if proto == "udp" || proto == "quic" {
+							pc, _ := net.ListenPacket("udp", "127.0.0.1:0")
+							blocker, port = pc, pc.LocalAddr().(*net.UDPAddr).Port
+						} else {
+							l, _ := net.Listen("tcp", "127.0.0.1:0")
+							blocker, port = l, l.Addr().(*net.TCPAddr).Port
+						}
+						cfg.Servers = append(cfg.Servers, mkServer(proto, port))
 					case "missing-cert", "missing-cert:https", "missing-cert:quic":
 						proto := "tls"
 						if i := strings.IndexByte(fk, ':'); i > 0 {
